@@ -771,10 +771,12 @@ Definition if_expression (c : ctx) : prog out :=
   let '(c2, old) := push_nl true c1 in
   let* '(cond, c3) := expression c2 in
   let c4 := pop_nl old c3 in
-  let* c5 := pexpect KDo c4 in
-  let* '(body, c6) := block c5 in
-  let* '(bs, c7) := call_Ifs ((QElifs [IfBranch (Some cond) body] c6)) in
-  ok (RE (EIf bs) c7).
+  (* `do` is required but not eaten here: block() takes it *)
+  if is_k KDo c4 then
+    let* '(body, c6) := block c4 in
+    let* '(bs, c7) := call_Ifs ((QElifs [IfBranch (Some cond) body] c6)) in
+    ok (RE (EIf bs) c7)
+  else praise c4.
 
 Definition step_elifs (acc : list ifbranch) (c : ctx) : prog out :=
   if is_k KElif c then
@@ -782,12 +784,16 @@ Definition step_elifs (acc : list ifbranch) (c : ctx) : prog out :=
     let '(c2, old) := push_nl true c1 in
     let* '(cond, c3) := expression c2 in
     let c4 := pop_nl old c3 in
-    let* c5 := pexpect KDo c4 in
-    let* '(body, c6) := block c5 in
-    call (QElifs (acc ++ [IfBranch (Some cond) body]) c6)
+    if is_k KDo c4 then
+      let* '(body, c6) := block c4 in
+      call (QElifs (acc ++ [IfBranch (Some cond) body]) c6)
+    else praise c4
   else if is_k KElse c then
-    let* '(body, c1) := block (skip 1 c) in
-    ok (RIfs (acc ++ [IfBranch None body]) c1)
+    (* `else` is stepped over with newlines significant: an optional `do` has to follow on the same line *)
+    let '(c0, old) := push_nl false c in
+    let* c1 := pexpect KElse c0 in
+    let* '(body, c2) := block (pop_nl old c1) in
+    ok (RIfs (acc ++ [IfBranch None body]) c2)
   else ok (RIfs acc c).
 
 Definition case_expression (c : ctx) : prog out :=
